@@ -18,7 +18,7 @@ import _griffe.docstrings.utils as DU
 from _griffe.agents.visitor import visit
 from _griffe.docstrings.models import DocstringSection, DocstringSectionText
 from _griffe.models import Docstring
-from vlib.ob import TIER, cover, fail, obligation, tiered
+from vlib.ob import TIER, cover, fail, obligation, tiered, prop
 from vlib.stubs import realize_regexes, silence_logging
 
 STUBS = silence_logging()
@@ -82,7 +82,7 @@ class FDoc(Docstring):
 
     @property
     def lines(self):
-        base = self._lines if self._lines is not None else Docstring.lines.fget(self)
+        base = self._lines if self._lines is not None else prop(Docstring, "lines")(self)
         return FuelList(base, self._counter)
 
 
@@ -167,7 +167,7 @@ def _chars_shards(style):
 def _make_chars(style, parser_fn):
     @obligation(
         pid="C12", name=f"{style}_chars", pre=_chars_pre(style), shards=_chars_shards(style), timeout=tiered(240, 1500), path_timeout=60.0,
-        drives=[parser_fn, Docstring.lines.fget],
+        drives=[parser_fn, prop(Docstring, "lines")],
         bounds={"text": f"every string of length <= {NCHARS[style]} over {ALPHA[style]!r}", "options": "all boolean parser options symbolic", "parents": [PARENT_NAMES[i] for i in CHAR_PARENTS]},
         value_symbolic=["text (whole docstring value)", "the parser's boolean options"], selectors=["parent object kind"],
         stubs=STUBS + ["Docstring value assigned directly (inspect.cleandoc not under test)"],
